@@ -71,7 +71,25 @@ func doReq[T any](cfg *gconfig.Config, op, key string) (out string) {
 	return "bad-op"
 }
 
+// two DISTINCT types that print the same name (`main.settings`): function-local types of
+// different functions. A memo table keyed by the type's name would confuse them.
+func localSettingsA() func(cfg *gconfig.Config, op, key string) string {
+	type settings struct {
+		A int `yaml:"a"`
+	}
+	return doReq[settings]
+}
+
+func localSettingsB() func(cfg *gconfig.Config, op, key string) string {
+	type settings struct {
+		B string `yaml:"b"`
+	}
+	return doReq[settings]
+}
+
 var typeTable = map[string]func(cfg *gconfig.Config, op, key string) string{
+	"settingsA":      localSettingsA(),
+	"settingsB":      localSettingsB(),
 	"int":            doReq[int],
 	"int8":           doReq[int8],
 	"int16":          doReq[int16],
@@ -107,6 +125,7 @@ var goTypeName = map[string]string{
 	"*int": "*int", "*string": "*string", "[]int": "[]int", "[]string": "[]string", "[]any": "[]interface {}",
 	"map[string]int": "map[string]int", "map[string]any": "map[string]interface {}",
 	"pair": "main.pairT", "*pair": "*main.pairT", "duration": "time.Duration", "any": "<nil>",
+	"settingsA": "main.settings", "settingsB": "main.settings",
 }
 
 // collidingPairs: all ((key1,type1),(key2,type2)) over c10Keys x types with
